@@ -81,10 +81,49 @@ def has_in_helpers(func, template, lets=()):
         for name, tpl in lets:
             am.let(name, tpl)
         n = am.has(g.node, template)
+        if n is not None and am.let_params and not _callers_pass_lets(func, g, am, dict(lets)):
+            n = None
         if n is not None:
             take_last_miss()
             return n, am, g
     return None, None, None
+
+
+def _callers_pass_lets(func, g, am, lets):
+    """Where a helper parameter stands for a `let` temporary of the template, every call of the helper from the anchored function's
+    closure must pass an argument that matches that temporary's template."""
+    from . import flow
+
+    model = flow.MODEL
+    if model is None:
+        return False
+    params = [x.arg for x in g.node.args.args]
+    offset = 1 if params and params[0] in ("self", "cls") else 0
+    seen_call = False
+    for h in helper_closure(func):
+        for c in ast.walk(h.node):
+            if not isinstance(c, ast.Call):
+                continue
+            try:
+                t = model.resolve_call(c, h)
+            except Exception:
+                t = None
+            if t is None or getattr(t, "node", None) is not g.node:
+                continue
+            seen_call = True
+            for let_name, pname in am.let_params.items():
+                idx = params.index(pname) - offset
+                arg = c.args[idx] if 0 <= idx < len(c.args) else next((k.value for k in c.keywords if k.arg == pname), None)
+                if arg is None:
+                    return False
+                am_c = AM(h, params_bindable=(h is not func))
+                for n2, tpl2 in lets.items():
+                    if n2 != let_name:
+                        am_c.let(n2, tpl2)
+                if not am_c.eq(flow.expand(h.node, arg), lets[let_name]):
+                    take_last_miss()
+                    return False
+    return seen_call
 
 
 def take_last_miss():
@@ -102,6 +141,9 @@ class AM:
         if a.kwarg:
             self.params.add(a.kwarg.arg)
         self.locals = _locals_of(func.node) - self.params
+        self.params_bindable = params_bindable
+        self.bindable_params = {p_ for p_ in self.params if p_ not in ("self", "cls")} if params_bindable else set()
+        self.let_params = {}   # let name -> helper parameter that stands for it
         if params_bindable:
             # a helper's parameters are locals of the computation that was moved into it
             self.locals |= {p_ for p_ in self.params if p_ not in ("self", "cls")}
@@ -181,6 +223,11 @@ class AM:
                 if t.id in self.lets:
                     if t.id in b:
                         return b[t.id] == a.id
+                    if self.params_bindable and a.id in self.bindable_params and a.id not in b.values():
+                        # a helper's parameter stands for the temporary: its value is what the caller passes (recorded for the caller-side check)
+                        b[t.id] = a.id
+                        self.let_params[t.id] = a.id
+                        return True
                     if a.id in self.defs and a.id not in self.params:
                         for v in self.defs[a.id]:
                             b2 = dict(b)
